@@ -166,7 +166,17 @@ fn build_entry(c: &Case) -> (Vec<u8>, Expected) {
         Entry::Standard { blocks, gaps } => {
             let s = specs(c.seed, 0, blocks);
             let gaps: Vec<usize> = gaps.iter().map(|g| *g as usize).collect();
-            (sqpack::standard_entry(&s, c.extra_header_128 as usize, &gaps), Expected { standard_or_texture: Some(concat(&s)), model: None })
+            // a third of the multi-block entries store their blocks in another order than the content has them
+            let mut order: Vec<usize> = vec![];
+            if s.len() >= 2 && (c.seed >> 40) % 3 == 0 {
+                order = (0..s.len()).collect();
+                let mut x = c.seed ^ 0x0DE2;
+                for i in (1..s.len()).rev() {
+                    x = util::splitmix64(x);
+                    order.swap(i, (x % (i as u64 + 1)) as usize);
+                }
+            }
+            (sqpack::standard_entry_ordered(&s, c.extra_header_128 as usize, &gaps, &order), Expected { standard_or_texture: Some(concat(&s)), model: None })
         }
         Entry::Texture { header_len, mips } => {
             let header = content(c.seed, 9999, *header_len as usize, 0);
@@ -344,6 +354,11 @@ fn prop(c: &Case, ctx: &Ctx) -> PResult {
     ctx.classf(format!("dat{}", c.dat_id));
     if damaged_at.is_some() {
         ctx.class("route:after-a-failed-read-on-the-same-handle");
+    }
+    if let Entry::Standard { blocks, .. } = &c.entry {
+        if blocks.len() >= 2 && (c.seed >> 40) % 3 == 0 {
+            ctx.class("standard:blocks-stored-out-of-content-order");
+        }
     }
     if let Entry::Model { .. } = &c.entry {
         if (c.seed >> 8) % 3 == 0 {
